@@ -46,7 +46,7 @@ def pixelMax : Nat := 65535
 /-- the exceptions of the constructor, in the order of the `throw` statements in the source -/
 inductive Err where
   | notReadable | notPGM | offsetRead | scaleRead | rasterSize | maxvalRead | maxvalValue
-  | offsetUnset | scaleUnset | scaleNeg | tooSmall | widthOdd | heightEven | wrongLength
+  | offsetUnset | scaleUnset | scaleNeg | tooSmall | widthOdd | heightEven | tooLarge | wrongLength
 deriving Repr, DecidableEq, Inhabited
 
 def Err.msg : Err → String
@@ -63,11 +63,12 @@ def Err.msg : Err → String
   | .tooSmall => "Raster size too small"
   | .widthOdd => "Raster width is odd"
   | .heightEven => "Raster height is even"
+  | .tooLarge => "Raster size too large"
   | .wrongLength => "File has the wrong length"
 
 def Err.all : List Err :=
   [.notReadable, .notPGM, .offsetRead, .scaleRead, .rasterSize, .maxvalRead, .maxvalValue,
-   .offsetUnset, .scaleUnset, .scaleNeg, .tooSmall, .widthOdd, .heightEven, .wrongLength]
+   .offsetUnset, .scaleUnset, .scaleNeg, .tooSmall, .widthOdd, .heightEven, .tooLarge, .wrongLength]
 
 /-! ## stream primitives -/
 
@@ -309,6 +310,8 @@ def validate (raw : Raw) (len : Nat) : Except Err Header :=
   if raw.h < 2 ∨ raw.w < 2 then .error .tooSmall else
   if raw.w % 2 = 1 then .error .widthOdd else
   if raw.h % 2 = 0 then .error .heightEven else
+  -- `rawval` and `CacheArea` do their index arithmetic (`2 * (_height - 1) - iy`, `ix + _width`) in `int`
+  if raw.w > 2 ^ 30 ∨ raw.h > 2 ^ 30 then .error .tooLarge else
   -- `seekg(0, end)` does nothing and `good()` is false when `tellg` has set `failbit`
   if raw.tell.isNone || !lengthOKCoded datastart raw.w raw.h len then .error .wrongLength else
   .ok { offset := raw.st.offset, scale := raw.st.scale, maxerror := raw.st.maxerror, rmserror := raw.st.rmserror,
